@@ -13,6 +13,7 @@ pub struct Mutex<T> {
 pub struct MutexGuard<'a, T: 'a> {
     g: ManuallyDrop<std::sync::MutexGuard<'a, T>>,
     key: usize,
+    m: &'a Mutex<T>,
 }
 
 impl<T> Mutex<T> {
@@ -33,14 +34,14 @@ impl<T> Mutex<T> {
         if sched::controlled() {
             sched::acquire(key);
             match self.inner.try_lock() {
-                Ok(g) => Ok(MutexGuard { g: ManuallyDrop::new(g), key }),
-                Err(TryLockError::Poisoned(p)) => Err(PoisonError::new(MutexGuard { g: ManuallyDrop::new(p.into_inner()), key })),
+                Ok(g) => Ok(MutexGuard { g: ManuallyDrop::new(g), key, m: self }),
+                Err(TryLockError::Poisoned(p)) => Err(PoisonError::new(MutexGuard { g: ManuallyDrop::new(p.into_inner()), key, m: self })),
                 Err(TryLockError::WouldBlock) => sched::fatal("scheduler granted a lock that is really held (wrapper state and reality diverged)"),
             }
         } else {
             match self.inner.lock() {
-                Ok(g) => Ok(MutexGuard { g: ManuallyDrop::new(g), key }),
-                Err(p) => Err(PoisonError::new(MutexGuard { g: ManuallyDrop::new(p.into_inner()), key })),
+                Ok(g) => Ok(MutexGuard { g: ManuallyDrop::new(g), key, m: self }),
+                Err(p) => Err(PoisonError::new(MutexGuard { g: ManuallyDrop::new(p.into_inner()), key, m: self })),
             }
         }
     }
@@ -53,8 +54,8 @@ impl<T> Mutex<T> {
             }
         }
         match self.inner.try_lock() {
-            Ok(g) => Ok(MutexGuard { g: ManuallyDrop::new(g), key }),
-            Err(TryLockError::Poisoned(p)) => Err(TryLockError::Poisoned(PoisonError::new(MutexGuard { g: ManuallyDrop::new(p.into_inner()), key }))),
+            Ok(g) => Ok(MutexGuard { g: ManuallyDrop::new(g), key, m: self }),
+            Err(TryLockError::Poisoned(p)) => Err(TryLockError::Poisoned(PoisonError::new(MutexGuard { g: ManuallyDrop::new(p.into_inner()), key, m: self }))),
             Err(TryLockError::WouldBlock) => {
                 if sched::controlled() {
                     sched::fatal("try_lock: scheduler granted a lock that is really held")
@@ -105,6 +106,95 @@ impl<'a, T> Drop for MutexGuard<'a, T> {
         if sched::controlled() {
             sched::release(self.key);
         }
+    }
+}
+
+/// `Condvar` for the wrapper's `MutexGuard`.  Under the scheduler a wait releases the mutex, blocks
+/// until the next notification of this condition variable (every notification wakes every waiter,
+/// which the std contract allows: wake-ups may be spurious) and takes the mutex again; a waiter is
+/// *not enabled* until then, so waiting is visible to the explorer (no spinning).
+pub struct Condvar {
+    inner: std::sync::Condvar,
+}
+
+impl Condvar {
+    pub const fn new() -> Condvar {
+        Condvar { inner: std::sync::Condvar::new() }
+    }
+    fn key(&self) -> usize {
+        &self.inner as *const std::sync::Condvar as usize
+    }
+    pub fn wait<'a, T>(&self, guard: MutexGuard<'a, T>) -> LockResult<MutexGuard<'a, T>> {
+        let m = guard.m;
+        if sched::controlled() {
+            let key = self.key();
+            let seq = sched::cond_seq(key);
+            drop(guard);
+            sched::cond_block(key, seq);
+            m.lock()
+        } else {
+            // free-running: hand the real guard to the real condition variable
+            let mut guard = guard;
+            let key = guard.key;
+            let real = unsafe { ManuallyDrop::take(&mut guard.g) };
+            std::mem::forget(guard);
+            match self.inner.wait(real) {
+                Ok(g) => Ok(MutexGuard { g: ManuallyDrop::new(g), key, m }),
+                Err(p) => Err(PoisonError::new(MutexGuard { g: ManuallyDrop::new(p.into_inner()), key, m })),
+            }
+        }
+    }
+    pub fn wait_while<'a, T, F: FnMut(&mut T) -> bool>(&self, mut guard: MutexGuard<'a, T>, mut condition: F) -> LockResult<MutexGuard<'a, T>> {
+        while condition(&mut *guard) {
+            guard = match self.wait(guard) {
+                Ok(g) => g,
+                Err(p) => return Err(p),
+            };
+        }
+        Ok(guard)
+    }
+    /// Under the scheduler time does not pass: a timed wait behaves like `wait` and never times out.
+    pub fn wait_timeout<'a, T>(&self, guard: MutexGuard<'a, T>, _dur: std::time::Duration) -> LockResult<(MutexGuard<'a, T>, WaitTimeoutResult)> {
+        // WaitTimeoutResult has no public constructor: obtain "not timed out" from a real zero-contention wait
+        let r = {
+            let m = std::sync::Mutex::new(());
+            let c = std::sync::Condvar::new();
+            c.notify_all();
+            let g = m.lock().unwrap();
+            // a real wait of 0 ns reports timed_out = true; a notified one cannot be forced: use the flag only as a value carrier
+            let (_g, r) = c.wait_timeout(g, std::time::Duration::from_nanos(0)).unwrap();
+            r
+        };
+        match self.wait(guard) {
+            Ok(g) => Ok((g, r)),
+            Err(p) => Err(PoisonError::new((p.into_inner(), r))),
+        }
+    }
+    pub fn notify_one(&self) {
+        if sched::controlled() {
+            sched::cond_notify(self.key());
+        } else {
+            self.inner.notify_one()
+        }
+    }
+    pub fn notify_all(&self) {
+        if sched::controlled() {
+            sched::cond_notify(self.key());
+        } else {
+            self.inner.notify_all()
+        }
+    }
+}
+
+impl Default for Condvar {
+    fn default() -> Self {
+        Condvar::new()
+    }
+}
+
+impl std::fmt::Debug for Condvar {
+    fn fmt(&self, f: &mut std::fmt::Formatter<'_>) -> std::fmt::Result {
+        f.write_str("Condvar { .. }")
     }
 }
 
